@@ -502,6 +502,19 @@ func (v *FnVC) rangeOf(s string, t types.Type) string {
 	case *types.Pointer:
 		// nil, an object (objects are spaced 1024 apart, so inner addresses stay positive), or a package-level address
 		return fmt.Sprintf("(or (= %s 0) (>= %s 1024) (< %s (- 1000)))", s, s, s)
+	case *types.Struct:
+		// a struct value: the ranges of its fields (one level; nested structs recurse)
+		name := v.sortOf(t)
+		var parts []string
+		for i := 0; i < u.NumFields(); i++ {
+			f := u.Field(i)
+			if r := v.rangeOf(fmt.Sprintf("(%s %s)", fieldAcc(name, f.Name(), i), s), f.Type()); r != "true" {
+				parts = append(parts, r)
+			}
+		}
+		if len(parts) > 0 {
+			return "(and " + strings.Join(parts, " ") + ")"
+		}
 	}
 	return "true"
 }
